@@ -17,6 +17,12 @@ CLAIMED = {
          "Whole-FAB window at the recorded offset, kept-field selection, F-order serialisation, header count = components written, offset capture; names/indices lock-step; scatter map; global-header writer grammar vs reader oracle with exact float formats; level-header rewriter copies min/max rows as strings; CLI wiring; sinks at the output."),
  "C06": ("E1 on the three workers + mode-enum / task-key / access-kind-vs-map-order rules + E4",
          "Whole-FAB reads, side-coherent selectors and offsets, [v1 ++ v2] order, header count; produced vs dispatched modes; task keys per worker x generator; scan/seek access against scatter-map order; names/indices/min-max order; dominance of the structure validation; writer grammars."),
+ "C07": ("E1 byte window of slice_box + E5 formula identities / comparator normal forms + symmetric-store rule",
+         "Window of the sliced field, span/normal-grid/face-point/default-position/interpolation identities, domain refusal and box-selection margin (>= dx/2) as comparator normal forms, four position cases with bracketing indices, ascending reduction, symmetric stores, mask+complement cover."),
+ "C08": ("E1 byte window of plate_box (2D) + E5 span formulas + store/transpose rules",
+         "2D window, span and factor formulas, same-box task tables, ascending overwrite, per-field store agreement, common transpose, name/array pairing, coordinates."),
+ "C16": ("alias rule + E5 identities + H-FAB template evaluation + E4 writer grammars + chunking rules",
+         "Distinct per-level accumulators, per-level interpolation identity, each footprint once, span/down-sampling formulas, literal FAB header = canonical 2D template, header count, offset capture, min/max source, chunk step >= 1 and chunks <= names, Header and Cell_H grammars."),
  "C11": ("E1 on the five knives (incl. recipe-result rank) + names/count/order rules + E2 + E4",
          "Header count = kept + new components on every path, rank agreement, [kept ++ new] order, min/max over the written array, no store through input views, names defined/counted/ordered like the data, offset-sorted scatter map, ordered pathos imap with serial twin, worker globals vs persistent pool, writer grammars."),
  "C12": ("E2 non-interference rules over all pool call sites",
